@@ -46,15 +46,18 @@ func init() {
 		LevelNote:    "trusted: as C14; B is generous and knob-derived, not measured by a second fault-free execution of the same workload; a run that exhausts the step budget before B is counted as truncated, not judged",
 		Technique:    "deterministic simulation with fault injection, fault phase then quiet phase; bounded-liveness oracle over the ground-truth API/cloud/VM models",
 		DesignRef:    "5.15"})
-	props = append(props, &Prop{ID: "C16", Harness: "dispatch", Level: "exploration",
+	props = append(props, &Prop{ID: "C16", Harness: "dispatch", Level: "exploration", Also: []string{"C16P"},
 		QuickRuns: 1200, QuickChunk: 20, QuickWallS: 60, ThoroughRuns: 60000, ThoroughChunk: 20, ThoroughWallS: 600, MaxSteps: 1500000, RunWallS: 900,
 		Rule:          "C16: per run an instance-type table (1-12 types, tied prices, RAM/VCPU/scratch boundary values, odd byte counts, preemptible flags) and ReserveExtraRAM are drawn; 150 constraint vectors around type boundaries (exact fit, -1/+1/+2 units, image sizes around the 122-byte and 42-byte-per-block boundaries, flipped preemptible flag) go through the real ChooseInstanceType directly, and 1-40 such containers go through the real queue, scheduler and pool under C14's faults and events; then faults stop until unsatisfiable containers are cancelled.",
 		Real:          real,
-		Stub:          stub,
-		ExpectProbes:  []string{"type-choice-checked", "type-choice-unsatisfiable", "type-choice-inside-rounding-interval", "runQueue-pass", "start-refused-no-idle-worker", "waiting-locked-container-unlocked-at-quota", "pool-at-quota-seen-by-scheduler", "unsatisfiable-container-in-queue"},
+		Stub:          append(append([]string{}, stub...), "sub-check C16P only: MODEL queue and MODEL pool (scheduler.ContainerQueue / scheduler.WorkerPool) behind the real scheduler, instead of the real container.Queue and worker.Pool"),
+		ExpectProbes:  []string{"type-choice-checked", "type-choice-unsatisfiable", "type-choice-inside-rounding-interval", "runQueue-pass", "start-refused-no-idle-worker", "waiting-locked-container-unlocked-at-quota", "pool-at-quota-seen-by-scheduler", "unsatisfiable-container-in-queue", "episode-complete", "start-decided"},
 		PureRideAlong: []string{"pure ride-along: the type-choice clause (ChooseInstanceType vs. brute-force minimum with interval-sound RAM arithmetic) is a pure function; it is evaluated inside every simulated run (each container entering the real queue, plus 150 direct samples per run) but no schedule/clock/fault dimension applies to it"},
 		LevelText:     "type choice: brute-force reference written from the statement (chosen type adequate with the RAM bound rounded down, no strictly cheaper type adequate with it rounded up, unsatisfiable => error listing all configured types, and in the simulation such a container ends Cancelled with the error text and is never started); ordering: trace invariants over recording proxies around the real queue and pool handed to the scheduler, per runQueue pass relative to the Entries() snapshot of that pass",
 		LevelNote:     "trusted: the reference arithmetic incl. the documented arv-keepdocker image-size heuristic; the pass detector (Unallocated() opens a pass over the latest Entries() of the scheduler goroutine, the next Entries()/CountWorkers() closes it). The tie-break among equally priced types is not part of the statement and not judged",
-		Technique:     "deterministic simulation: real scheduler/pool/queue with randomised type tables; brute-force oracle for the (pure) choice, recorded-trace invariants for the ordering clauses",
+		Technique:     "deterministic simulation: real scheduler/pool/queue with randomised type tables; brute-force oracle for the (pure) choice, recorded-trace invariants for the ordering clauses; plus sub-check C16P: the real scheduler against a model queue and a model pool that changes between any two calls (the statement's own quantifier over snapshots and pool states)",
 		DesignRef:     "5.16"})
+	props = append(props, &Prop{ID: "C16P", Harness: "dispatch", Level: "exploration", Sub: true,
+		QuickRuns: 20000, QuickChunk: 500, QuickWallS: 20, ThoroughRuns: 3000000, ThoroughChunk: 5000, ThoroughWallS: 200, MaxSteps: 100000,
+		Rule: "C16P (ordering clauses of C16 over the statement's own quantifier): the real scheduler (Start: fixStaleLocks, runQueue, sync, lock/cancel/kill/requeue goroutines) runs 2-6 passes against a MODEL queue and a MODEL pool: 1-3 instance types, 2-8 containers (Queued, Locked, Locked or Running with a process, lingering old processes; tied, distinct and zero priorities), 0-3 idle and 0-3 booting workers per type, the at-quota flag; every call of the scheduler is one simulator decision and between two calls of one pass a booting worker may turn idle, an idle worker may go away, the quota flag may flip, Create and the API calls may be refused; between passes priorities change, containers arrive, workers boot, processes end."})
 }
